@@ -5,6 +5,9 @@
                   ls = the physical lines of stdout, each with p (text without colour sequences),
                   g/n/eq (gutter class, gutter line number, text = that source line) and m = what the
                   SHIPPED matcher regexp captured on p.  snip = the mode may print snippets.
+                  A record may stem from one invocation over several files (LintFiles): ds is then
+                  the list over all files in argument order.  pre = 1: the user template begins
+                  with a line "total=<number of diagnostics>" (one per execution of the template).
      k = "json" : -format '{{json .}}': parsed = the decoded array.
      k = "snip" : one (source, line, col) triple through PrettyPrint (pp), GetTemplateFields (tf)
                   and the JSON formatter (fmt).
@@ -39,6 +42,11 @@ Walk(ls, ds, i, p, snip) ==
 TextVerdict(r) ==
   IF r.fail # "" THEN "fails"
   ELSE IF \E i \in DOMAIN r.ds : r.ds[i].lb # <<>> THEN "linebreak"
+  \* pre = 1: the template starts with a "total=<number of diagnostics>" line, printed once per execution
+  ELSE IF r.pre = 1 THEN
+       (IF r.ls = <<>> THEN "template"
+        ELSE IF r.ls[1].p # "total=" \o ToString(Len(r.ds)) THEN "template"
+        ELSE Walk(r.ls, r.ds, 1, 2, r.snip))
   ELSE Walk(r.ls, r.ds, 1, 1, r.snip)
 
 JsonVerdict(r) ==
